@@ -400,3 +400,105 @@ def a_quic_accept_never_errs(prog):
     f = prog.body_of(prog.one(r"^listeners::quic::QuicListener::accept$"))
     ok = never_returns_err(prog, f)
     return ok, "QuicListener::accept has no Err return" if ok else "QuicListener::accept can now return Err, which its spawner turns into a panic"
+
+
+# --------------------------------------------------------------------------- milu
+
+def a_operator_fixed_arity(prog):
+    ops = ["Access", "If", "Index", "Scope", "IsMemberOf"]
+    need = {"Access": 2, "If": 3, "Index": 2, "Scope": 2, "IsMemberOf": 2}
+    for o in ops:
+        adt = "script::stdlib::" + o
+        ctors = []
+        for f in prog.by_crate["milu"].values():
+            for b in f.reachable:
+                for st in f.stmts(b):
+                    if st["k"] == "assign" and st["rv"]["k"] == "agg" and st["rv"].get("def") == adt:
+                        ctors.append(f)
+        bad = [f.path for f in ctors if not re.search(r"script::stdlib::%s::(make_call|stub)$|%s as core::clone::Clone>::clone$" % (o, o), f.path)]
+        if bad:
+            return False, "%s is constructed outside make_call/stub: %s" % (o, bad[:3])
+        mk = prog.by_crate["milu"].get("script::stdlib::%s::make_call" % o)
+        if mk is None:
+            return False, "%s::make_call not found" % o
+        if mk.arg_count != need[o]:
+            return False, "%s::make_call takes %d operands, the evaluator indexes %d" % (o, mk.arg_count, need[o])
+        stubs = [c for c in prog.callers_of(r"script::stdlib::%s::stub$" % o)]
+        if stubs:
+            return False, "%s::stub() is used (%s): the operator becomes nameable with arbitrary arity" % (o, stubs[0].where())
+    return True, "operator structs are built only by make_call with %s operands" % need
+
+
+def a_c09_ctor_total(prog):
+    from ..core import Check
+    from . import c09
+    tmp = Check("C09")
+    try:
+        c09.run(tmp, prog)
+    except Exception as e:
+        return False, "C09 grammar extraction failed: %s" % e
+    bad = [f for f in tmp.findings if f.rule == "R4-ctor" and "missing-arm" in f.key]
+    if bad:
+        return False, "grammar literal without constructor arm: %s" % bad[0].key
+    return True, "every grammar literal has a parse1/parse2/parse_many arm"
+
+
+def a_parse_many_shape(prog):
+    callers = prog.callers_of(r"^parser::parse_many$")
+    callers = [c for c in callers if c.fn.crate == "milu"]
+    if len(callers) != 1 or "op_8" not in callers[0].fn.path:
+        return False, "parse_many is called from %s (expected only the op_8 fold)" % [c.fn.path for c in callers]
+    c = callers[0]
+    ins = [x for x in c.fn.calls if re.search(r"Vec::<T, A>::insert$", x.path or "")]
+    if not ins or not all(c.fn.dominates(x.bb, c.bb) for x in ins):
+        return False, "op_8 no longer inserts the operand in front of the postfix arguments before parse_many"
+    # Call::new callers: make_call functions and parse_many
+    for x in prog.callers_of(r"^script::Call::new$"):
+        if x.fn.crate != "milu" and not x.fn.file.endswith("script_ext.rs"):
+            continue
+        if not re.search(r"::make_call$|parser::parse_many$", x.fn.path):
+            return False, "Call::new called from %s" % x.fn.path
+    return True, "parse_many is fed by op_8 only (operand inserted at index 0); Call::new by make_call/parse_many only"
+
+
+def a_call_func_checks_callable(prog):
+    f = prog.by_crate["milu"].get("script::Call::func")
+    if f is None:
+        return False, "Call::func not found"
+    oks = []
+    for b in f.reachable:
+        for st in f.stmts(b):
+            if st["k"] == "assign" and st["lhs"][0] == 0 and st["rv"]["k"] == "agg" and st["rv"].get("variant") == "Ok":
+                oks.append(b)
+    guards = [c for c in f.calls if re.search(r"Option::<T>::is_some$", c.path or "")]
+    ok = bool(oks) and bool(guards)
+    for o in oks:
+        if not any(edge_dominates(f, sb, tt, o) for g in guards for (sb, tt, ft) in bool_branch(f, g.dest[0])):
+            ok = False
+    # and both users obtain the object from func()
+    for nm in ("script::Call::call", "script::Call::signature"):
+        g = prog.by_crate["milu"].get(nm)
+        if g is None or not [c for c in g.calls if re.search(r"script::Call::func$", c.name or "")]:
+            ok = False
+    return ok, "Call::func returns Ok only on the as_callable().is_some() edge" if ok else "Call::func can return an object that is not callable"
+
+
+def a_scope_shape(prog):
+    # Scope::make_call is only called from the op_let closure, with vars.into() (array of op_assign results)
+    callers = [c for c in prog.callers_of(r"script::stdlib::Scope::make_call$") if c.fn.crate == "milu"]
+    if not callers or not all("op_let" in c.fn.path for c in callers):
+        return False, "Scope::make_call is called from %s" % [c.fn.path for c in callers]
+    oa = [f for k, f in prog.by_crate["milu"].items() if k.startswith("parser::op_assign::{closure")]
+    two = False
+    for f in oa:
+        for b in f.reachable:
+            for st in f.stmts(b):
+                if st["k"] == "assign" and st["rv"]["k"] == "agg" and st["rv"].get("ak") == "array" and len(st["rv"]["ops"]) == 2:
+                    two = True
+    if not two:
+        return False, "op_assign no longer builds a two-element [name, value] binding"
+    av = [c for c in prog.callers_of(r"script::Value::as_(vec|str)$") if c.fn.crate == "milu"]
+    bad = [c.fn.path for c in av if "Scope" not in c.fn.path]
+    if bad:
+        return False, "Value::as_vec/as_str used outside Scope: %s" % bad[:3]
+    return True, "let-bindings reach Scope only as [[name, value]..] built by op_let/op_assign"
